@@ -1064,7 +1064,7 @@ func registerStd() {
 	// sync.Pool: Get hands back an object that was Put earlier or a fresh one
 	// (the pool may drop its content at any time): both are explored.
 	I["(*sync.Pool).Put"] = func(m *Machine, fr *frame, args []Value) Value {
-		key := fmt.Sprintf("pool:%p", args[0].(*Value))
+		key := m.addrKey("pool", args[0].(*Value))
 		items, _ := m.env[key].([]Value)
 		if itf, ok := args[1].(Iface); ok && itf.T == nil {
 			return nil
@@ -1074,7 +1074,7 @@ func registerStd() {
 	}
 	I["(*sync.Pool).Get"] = func(m *Machine, fr *frame, args []Value) Value {
 		pp := args[0].(*Value)
-		key := fmt.Sprintf("pool:%p", pp)
+		key := m.addrKey("pool", pp)
 		items, _ := m.env[key].([]Value)
 		if len(items) > 0 && m.Choose(2) == 0 {
 			it := items[len(items)-1]
@@ -1101,7 +1101,7 @@ func registerStd() {
 	I["(*sync.WaitGroup).Wait"] = noop
 	I["(*sync.Once).Do"] = func(m *Machine, fr *frame, args []Value) Value {
 		p := args[0].(*Value)
-		key := fmt.Sprintf("once:%p", p)
+		key := m.addrKey("once", p)
 		if m.env[key] == nil {
 			m.env[key] = true
 			m.call(args[1], fr, nil)
@@ -1495,7 +1495,7 @@ func (m *Machine) parseBase(fr *frame, b []*smt.Term, base, bitSize int) Value {
 type bufState struct{ b []*smt.Term }
 
 func (m *Machine) buffer(p *Value) *bufState {
-	key := fmt.Sprintf("buf:%p", p)
+	key := m.addrKey("buf", p)
 	if b, ok := m.env[key].(*bufState); ok {
 		return b
 	}
@@ -1655,7 +1655,7 @@ func (m *Machine) heldLocks() []*lockState {
 }
 
 func (m *Machine) syncMap(p *Value) *Map {
-	key := fmt.Sprintf("syncmap:%p", p)
+	key := m.addrKey("syncmap", p)
 	if mp, ok := m.env[key].(*Map); ok {
 		return mp
 	}
